@@ -391,7 +391,7 @@ def _whole_collections(ctx, srv, g, HEADER, corr):
         # (e) split correspondence: the real prepare() against Model/Split.v
         split_cases.append(split_case(ritem, rput, tree, rng))
     corr(ctx, "split", "split_ids", [c for c in split_cases if c is not None],
-         enc_upload, enc_list(lambda ucz: "(%s, (%s, %s))" % (enc_str(ucz[0]), enc_list(enc_N)(ucz[1]), enc_list(enc_N)(ucz[2]))), "eq_groups",
+         enc_upload, enc_list(lambda ucz: "(%s, ((%s : list N), (%s : list N)))" % (enc_str(ucz[0]), enc_list(enc_N)(ucz[1]), enc_list(enc_N)(ucz[2]))), "eq_groups",
          key=repr, nontrivial=lambda i, o: len(o) > 1)
 
     # address books: concatenated cards
